@@ -4,7 +4,9 @@
 //! exit: 0 held (KNOWN-FINDING lines possible), 1 VIOLATION, 2 machinery failure.
 
 mod agent;
+mod alloc;
 mod ambient;
+mod callsites;
 mod common;
 mod engine_in;
 mod engine_sm;
@@ -14,6 +16,9 @@ mod refimpl;
 mod teardown;
 
 use common::*;
+
+#[global_allocator]
+static GLOBAL: alloc::Probe = alloc::Probe;
 use serde_json::Value;
 use std::time::Instant;
 
@@ -66,7 +71,7 @@ fn main() {
                 i += 1;
                 replay = Some(args.get(i).cloned().unwrap_or_else(|| machinery("--replay needs a file")));
             }
-            _ if prop == "crosscheck" || prop == "stackprobe" || prop == "teardown" => {}
+            _ if prop == "crosscheck" || prop == "stackprobe" || prop == "teardown" || prop == "allocprobe" => {}
             other => machinery(&format!("unknown argument {other}")),
         }
         i += 1;
@@ -112,6 +117,12 @@ fn main() {
             n += 1;
         }
         println!("crosscheck ok: {n} reference computations agree with python hashlib/hmac/zlib");
+        return;
+    }
+    if prop == "allocprobe" {
+        // child of the allocation-failure probe: allocprobe <case> <k> <min>
+        let n = |i: usize| args.get(i).and_then(|a| a.parse::<i64>().ok()).unwrap_or_else(|| machinery("allocprobe <case> <k> <min>"));
+        teardown::alloc_child(n(2) as usize, n(3), n(4) as usize);
         return;
     }
     if prop == "teardown" {
